@@ -388,7 +388,7 @@ func runC11(r *ev.Run, rep *ev.ReplayDoc) ev.Summary {
 	env.Dir = d
 	defer env.Cleanup()
 	sum := ev.Summary{
-		Rule: "seeded message specs (all file sources incl. os files, read-seekers on os.File, fs.FS, templates; all file encodings, incl. quoted-printable assigned to File.Enc directly; S/MIME on a share, message middlewares on another) x operation sequences of length 2-5 over {WriteTo, Write, NewReader+ReadAll, 7-byte Reads, UpdateReader, a Reader read in part and then refreshed by UpdateReader, WriteToFile (to a new path and over an existing longer file), WriteToTempFile, WriteToSkipMiddleware, Send via reference server, failing-sink render, failing-producer render}; all pairs of operations enumerated, longer sequences sampled. Every successful output must equal the first successful output byte for byte. non-trivial = message has a file or >=2 parts; distinct by (shape, ops)",
+		Rule: "seeded message specs (all file sources incl. os files, read-seekers on os.File, fs.FS, templates, and ONE io.ReadSeeker of the caller's behind several files of a message; all file encodings, incl. quoted-printable assigned to File.Enc directly; S/MIME on a share, message middlewares on another) x operation sequences of length 2-5 over {WriteTo, Write, NewReader+ReadAll, 7-byte Reads, UpdateReader, a Reader read in part and then refreshed by UpdateReader, WriteToFile (to a new path and over an existing longer file), WriteToTempFile, WriteToSkipMiddleware, Send via reference server, failing-sink render, failing-producer render}; all pairs of operations enumerated, longer sequences sampled. Every successful output must equal the first successful output byte for byte. non-trivial = message has a file or >=2 parts; distinct by (shape, ops)",
 		Assumptions: []string{
 			"for Send the payload is what the reference server committed (dot-unstuffed); contents of 8bit/7bit entities are canonical CRLF so that SMTP's bare-LF canonicalisation does not blur the comparison",
 			"S/MIME: the outer boundary and the signature legitimately change per render; the top-level header (boundary masked) and the signed entity are compared",
@@ -411,6 +411,9 @@ func runC11(r *ev.Run, rep *ev.ReplayDoc) ev.Summary {
 	for si := 0; si < nspec; si++ {
 		rng := r.Rng("c11pairs", si)
 		s := genSpec(rng, fmt.Sprintf("c11-p%d", si), "", 1+rng.Intn(2), rng.Intn(2), 1+rng.Intn(2))
+		if si%3 == 1 && shareReadSeeker(rng, &s) {
+			r.Count("messages_with_one_readseeker_behind_several_files", 1)
+		}
 		canon8bit(&s)
 		c11Addrs(rng, &s)
 		if si%5 == 4 {
@@ -441,7 +444,13 @@ func runC11(r *ev.Run, rep *ev.ReplayDoc) ev.Summary {
 		if np+ne+na == 0 {
 			np = 1
 		}
+		for i%6 == 3 && ne+na < 2 {
+			na++
+		}
 		s := genSpec(rng, fmt.Sprintf("c11-%d", i), "", np, ne, na)
+		if i%6 == 3 && shareReadSeeker(rng, &s) {
+			r.Count("messages_with_one_readseeker_behind_several_files", 1)
+		}
 		canon8bit(&s)
 		c11Addrs(rng, &s)
 		if rng.Intn(6) == 0 {
